@@ -105,8 +105,15 @@ def apply_op(c, op):
     elif k == 2 and g.initializers:  # another tensor implementation
         keys = list(g.initializers)
         v = g.initializers[keys[b % len(keys)]]
-        kind = d % 5
-        if kind == 0:
+        kind = d % 7
+        if kind == 5:  # sub-byte tensor over a transposed (Fortran-contiguous) view
+            import ml_dtypes
+
+            base_arr = np.array([[1, -4, 2], [-5, 3, -6]], dtype=np.int8).astype(ml_dtypes.int4)
+            t = ir.Tensor(base_arr.T, dtype=ir.DataType.INT4)
+        elif kind == 6:  # float tensor over a Fortran-ordered array
+            t = ir.Tensor(np.asfortranarray(np.arange(6, dtype=np.float32).reshape(2, 3) + d))
+        elif kind == 0:
             t = ir.Tensor(np.arange(6, dtype=np.float32).reshape(2, 3) * (1 + d))
         elif kind == 1:
             t = ir.PackedTensor(np.array([0x21, 0x43, 0x05], dtype=np.uint8), ir.DataType.INT4, shape=[5])
